@@ -606,6 +606,9 @@ class EventsProcessor:
         if SettingCodes.INITIAL_WINDOW_SIZE in event.changed_settings:
             for stream in self.streams.values():
                 stream.window_updated.set()
+        if SettingCodes.MAX_CONCURRENT_STREAMS in event.changed_settings:
+            # a raised limit frees stream slots just like a closed stream does
+            self.connection.stream_close_waiter.set()
 
     def process_settings_acknowledged(
         self,
